@@ -280,8 +280,10 @@ func runRecv(c RecvCase) (*recvStats, error) {
 			}
 			delivered[ai] = true
 			if !c.Reliable && lastDelivered >= 0 && !(mRestart && k == 0) {
+				// a step of exactly 2^15 is as far ahead as it is behind: "increasing modulo 2^16" does not
+				// decide it, so it is not judged (the receiver reads it as a forward jump)
 				d := int16(c.Arrival[ai] - c.Arrival[lastDelivered])
-				if d <= 0 {
+				if d <= 0 && c.Arrival[ai]-c.Arrival[lastDelivered] != 0x8000 {
 					return st, fmt.Errorf("delivery out of order or duplicate: seq %d after seq %d without a restart", c.Arrival[ai], c.Arrival[lastDelivered])
 				}
 			}
